@@ -104,6 +104,8 @@ def run(ctx, rep):
     m = c04.Model(ctx)
     K.share(ctx, rep, "c04", lambda o: o.rule in ("R04.1", "R04.2"), "R19.6", floor=8)
     _late_shares(ctx, rep)
+    from . import hygiene as H0
+    H0.private_state(ctx, rep, "R19.3", "rpyc.core.channel.Channel")
     rows = 0
 
     # ------------------------------------------------------------------ R19.1
@@ -239,6 +241,7 @@ def run(ctx, rep):
         rep.info("loaders for tags beyond the published table (informational): %s" % [x.hex() for x in extra])
 
     # ------------------------------------------------------------------ R19.3
+    K.share(ctx, rep, "c05", lambda o: o.rule == "R05.8", "R19.3", floor=1)
     info = c05.check_channel(ctx, rep, rule="R19.3")
     fr = ref["frame"]
     rep.ob("R19.3", "frame header struct", info["header"] == fr["header"],
